@@ -741,10 +741,6 @@ def judge(c, r, fault_k=None):
         return 'nosol,exit!=0,stderr', P
     # ------------------------------------------------------------------ a .sol exists
     text = sol.decode('latin-1')
-    if header_nopts(r['nl']) == 0:
-        # mp writes the keyword 'Options' without a count for an NL header with 0 AMPL options (a .sol format question that
-        # belongs to C05); the reference parser is given the count it expects
-        text = text.replace('\nOptions\n', '\nOptions\n0\n', 1)
     try:
         ps = vdriverlib.parse_sol(text)
         perr = None
